@@ -28,7 +28,10 @@ RULE = (
     'of the elements) before and after. '
     '(hist) every sequence of up to 3 factory / lookup / combinator calls per factory family, each followed by every '
     'applicable mutation of the returned object, then a fresh lookup compared with the pristine value obtained in a '
-    'fresh subprocess. (ir) the analysis of every translated function is re-run through the Lean driver for every '
+    'fresh subprocess; (compute-hist) every computational entry point (conversion kernels, cylinder quadrature / volume / '
+    'intersection, transmission map, attenuation, disk chopper offsets, frame sequences, fit_peaks / remove_peaks, model '
+    'calls, xye and CIF writers) with three argument sets (float64 / float32 / other unit, or three different objects) in '
+    'the orders 1,0,2,1,0, each result compared bit for bit with the same call in a process that made no other call. (ir) the analysis of every translated function is re-run through the Lean driver for every '
     'configuration and compared with the Python mirror; concrete runs of the heap semantics are compared with the '
     'analysis. distinct = distinct (function, configuration) / history.'
 )
@@ -199,6 +202,7 @@ SCALARS = {
     'dspacing': ([('angstrom', 'float64'), ('angstrom', 'float32')], [1.0, 2.5, 6.0]),
     'pulse_frequency': ([('Hz', 'float64'), ('Hz', 'float32'), ('kHz', 'float64')], [14.0]),
     'distance': ([('m', 'float64'), ('m', 'float32'), ('mm', 'float64')], [5.0, 7.0, 9.0]),
+    'pulse_time': ([('us', 'float64'), ('us', 'float32'), ('ms', 'float64')], [0.0, 71428.0, 142857.0]),
 }
 VECTORS = {
     'incident_beam': ([('m',), ('mm',)], [[0.0, 0.0, 10.0], [0.0, 0.1, 10.0], [0.1, 0.0, 9.0]]),
@@ -235,7 +239,7 @@ def param_configs(name):
         m = np.array([[0.2, 0.01, 0.0], [0.0, 0.25, 0.02], [0.0, 0.0, 0.3]])
         unit = 'one' if name == 'u_matrix' else '1/angstrom'
         return [(unit, lambda shape, u=unit: sc.spatial.linear_transform(value=m, unit=u))]
-    if name == 'pulse_time':
+    if name == 'pulse_time_datetime':
         return [('datetime64[ns]', lambda shape: sc.datetimes(dims=['row'], values=np.array(['2024-01-01T00:00:00', '2024-01-01T00:00:01', '2024-01-01T00:00:02'], dtype='datetime64[ns]'))
                  if shape != 'scalar' else sc.datetime('2024-01-01T00:00:00', unit='ns')),
                 ('datetime64[us]', lambda shape: sc.datetimes(dims=['row'], values=np.array(['2024-01-01T00:00:00', '2024-01-01T00:00:01', '2024-01-01T00:00:02'], dtype='datetime64[us]'))
@@ -560,6 +564,16 @@ def io_calls(ctx, deep):
             yield 'Block.write', cfg, (lambda b: b.write(io.StringIO())), (blk,), {}, {}
             yield 'Block.add', cfg, (lambda b, l: cif.Block('c', [l]).write(io.StringIO())), (blk, loop), {}, {}
             yield 'save_cif', cfg, (lambda b: cif.save_cif(io.StringIO(), b)), (blk,), {}, {}
+            def mkbuilder():
+                return cif.CIF('blk', comment='builder comment').with_reducers('r1')
+            yield 'save_cif(CIF builder, comment)', cfg, (lambda b: cif.save_cif(io.StringIO(), b, comment='per-call comment')), (mkbuilder(),), {}, {}
+            yield 'save_cif(CIF builder)', cfg, (lambda b: cif.save_cif(io.StringIO(), b)), (mkbuilder(),), {}, {}
+            yield 'CIF.save', cfg, (lambda b: b.save(io.StringIO())), (mkbuilder(),), {}, {}
+            yield 'CIF.copy', cfg, (lambda b: b.copy()), (mkbuilder(),), {}, {}
+            yield 'CIF.with_beamline-less builders', cfg, (lambda b: (b.with_reducers('x'), b.with_authors(), b.schema, b.name, b.comment)), (mkbuilder(),), {}, {}
+            yield 'Block.copy', cfg, (lambda b: (b.copy(), b.schema, b.name, b.comment)), (blk,), {}, {}
+            yield 'Chunk.write', cfg, (lambda c_: (c_.write(io.StringIO()), c_.schema, c_.comment)), (chunk,), {}, {}
+            yield 'Loop.write', cfg, (lambda l_: (l_.write(io.StringIO()), l_.schema, l_.comment)), (loop,), {}, {}
             content = [cif.Chunk({'_z': 1}), loop, chunk, {'_m': 'mapping'}]
             yield 'Block(content list)', cfg, (lambda lst: cif.Block('c', lst).write(io.StringIO())), (content,), {}, {}
             yield 'save_cif(list of blocks)', cfg, (lambda lst: cif.save_cif(io.StringIO(), lst)), ([cif.Block('b2', [chunk]), cif.Block('a1', [loop])],), {}, {}
@@ -901,6 +915,218 @@ def sc_errors():
     return sc.UnitError
 
 
+
+# =================================================================================================
+# histories of computational entry points: result(B) after A must equal result(B) in a pristine process
+# =================================================================================================
+
+def _digest(obj):
+    import hashlib
+
+    return hashlib.blake2b(repr(snap(obj)).encode(), digest_size=12).hexdigest()
+
+
+def compute_entries():
+    """[(function label, [thunk_0, thunk_1, thunk_2])]: thunk_k builds fresh arguments of argument set k and returns the
+    result. Argument set 0 is the aliasing / float64 one, 1 float32 (or a second object), 2 other units (or a third)."""
+    import numpy as np
+    import scipp as sc
+
+    out = []
+    # --- conversion kernels: every parameter in its k-th configuration
+    for label, f, params in kernel_functions():
+        cfgs = [param_configs(p) for p in params]
+        if any(c is None for c in cfgs):
+            continue
+        thunks = []
+        for k in range(3):
+            def th(k=k, f=f, params=params, cfgs=cfgs):
+                try:
+                    return f(**{p: cfgs[i][min(k, len(cfgs[i]) - 1)][1]('array') for i, p in enumerate(params)})
+                except sc.DimensionError:
+                    return f(**{p: cfgs[i][min(k, len(cfgs[i]) - 1)][1]('scalar') for i, p in enumerate(params)})
+            thunks.append(th)
+        out.append((label, thunks))
+
+    # --- absorption
+    from scippneutron.absorption import compute_transmission_map
+    from scippneutron.absorption.cylinder import Cylinder
+    from scippneutron.absorption.material import Material
+    from scippneutron.atoms import ScatteringParams
+
+    def cyl(k):
+        r, h = [(2.0, 2.0), (1.0, 9.0), (4.0, 1.5)][k]
+        return Cylinder(symmetry_line=sc.vector([[0.0, 1.0, 0.0], [0.0, 0.6, 0.8], [1.0, 0.0, 0.0]][k]),
+                        center_of_base=sc.vector([0.0, -h / 2, 0.0], unit='mm'), radius=sc.scalar(r, unit='mm'), height=sc.scalar(h, unit='mm'))
+
+    def mat(k):
+        return Material(scattering_params=ScatteringParams.for_isotope(['V', 'H', 'Si'][k]),
+                        effective_sample_number_density=sc.scalar([0.07, 0.05, 0.1][k], unit='1/angstrom**3'))
+
+    def wav(k):
+        return [sc.array(dims=['wavelength'], values=[1.0, 2.0, 4.0], unit='angstrom'),
+                sc.array(dims=['wavelength'], values=[1.0, 2.0, 4.0], unit='angstrom', dtype='float32'),
+                sc.array(dims=['wavelength'], values=[0.1, 0.2, 0.4], unit='nm')][k]
+
+    det = sc.vectors(dims=['detector'], values=np.array([[1.0, 0.0, 1.0], [0.0, 0.5, 1.0]]), unit='m')
+    for kind in ('cheap', 'medium', 'expensive'):
+        out.append((f'Cylinder.quadrature[{kind}]', [lambda k=k, kind=kind: cyl(k).quadrature(kind) for k in range(3)]))
+    out.append(('Cylinder.volume/center', [lambda k=k: (cyl(k).volume, cyl(k).center) for k in range(3)]))
+    out.append(('Cylinder.beam_intersection', [lambda k=k: cyl(k).beam_intersection(
+        sc.vectors(dims=['p'], values=np.array([[0.0, 0.0, 0.0], [0.3, 0.2, 0.1]]), unit='mm'), sc.vector([0.0, 0.0, 1.0])) for k in range(3)]))
+    out.append(('compute_transmission_map', [lambda k=k: compute_transmission_map(
+        cyl(k), mat(k), beam_direction=sc.vector([0.0, 0.0, 1.0]), wavelength=wav(k), detector_position=det, quadrature_kind='cheap')
+        for k in range(3)]))
+    out.append(('Material.attenuation_coefficient', [lambda k=k: mat(k).attenuation_coefficient(wav(k)) for k in range(3)]))
+
+    # --- choppers
+    from scippneutron.chopper import DiskChopper
+    from scippneutron.tof import chopper_cascade as cc
+
+    def disk(k):
+        ang, dt = [('rad', 'float64'), ('rad', 'float32'), ('deg', 'float64')][k]
+        return DiskChopper(axle_position=sc.vector([0.0, 0.0, 6.0 + k], unit='m'), frequency=sc.scalar([14.0, 28.0, -14.0][k], unit='Hz'),
+                           beam_position=sc.scalar(0.3, unit='rad').to(unit=ang, dtype=dt), phase=sc.scalar(0.5 + 0.1 * k, unit='rad').to(unit=ang, dtype=dt),
+                           slit_begin=sc.array(dims=['slit'], values=[0.0, 1.0 + 0.2 * k, 2.5], unit='rad').to(unit=ang, dtype=dt),
+                           slit_end=sc.array(dims=['slit'], values=[0.5, 1.6 + 0.2 * k, 3.0], unit='rad').to(unit=ang, dtype=dt))
+    pf = [sc.scalar(14.0, unit='Hz'), sc.scalar(14.0, unit='Hz', dtype='float32'), sc.scalar(0.014, unit='kHz')]
+    for meth in ('time_offset_open', 'time_offset_close', 'open_duration'):
+        out.append((f'DiskChopper.{meth}', [lambda k=k, m=meth: getattr(disk(k), m)(pulse_frequency=pf[k]) for k in range(3)]))
+
+    def frames(k):
+        tu, wu, du = [('s', 'm', 'm'), ('ms', 'angstrom', 'm'), ('us', 'angstrom', 'mm')][k]
+        fs = cc.FrameSequence.from_source_pulse(
+            time_min=sc.scalar(0.0, unit='ms').to(unit=tu), time_max=sc.scalar(3.0 + k, unit='ms').to(unit=tu),
+            wavelength_min=sc.scalar(0.5, unit='angstrom').to(unit=wu), wavelength_max=sc.scalar(8.0 - k, unit='angstrom').to(unit=wu))
+        chops = [cc.Chopper(distance=sc.scalar(d, unit='m').to(unit=du), time_open=sc.array(dims=['cutout'], values=[1.0 + 0.3 * i, 9.0], unit='ms').to(unit='s'),
+                            time_close=sc.array(dims=['cutout'], values=[4.0, 12.0 + 0.3 * i], unit='ms').to(unit='s')) for i, d in enumerate([9.0, 6.0 + k, 7.5])]
+        fs = fs.chop(chops).propagate_to(sc.scalar(15.0, unit='m').to(unit=du))
+        return [(f.distance, f.bounds(), f.subbounds()) for f in fs]
+    out.append(('FrameSequence.chop/propagate_to/bounds', [lambda k=k: frames(k) for k in range(3)]))
+
+    # --- peaks
+    from scippneutron.peaks import fit_peaks, remove_peaks
+    from scippneutron.peaks import model as M
+
+    def spectrum(k):
+        rs = np.random.default_rng(100 + k)
+        xs = np.linspace(0.5, 10, [120, 90, 150][k])
+        c = [4.0, 6.0, 3.0][k]
+        y = 5 + 0.3 * xs + 40 * np.exp(-(xs - c) ** 2 / (2 * [0.2, 0.3, 0.15][k] ** 2))
+        yn = rs.poisson(y * 20) / 20.0
+        da = sc.DataArray(sc.array(dims=['x'], values=yn, variances=np.maximum(yn, 1) / 20, unit='counts'),
+                          coords={'x': sc.array(dims=['x'], values=xs, unit='angstrom')})
+        return da, sc.array(dims=['x'], values=[c], unit='angstrom')
+
+    def fit(k):
+        da, est = spectrum(k)
+        rs = fit_peaks(da, peak_estimates=est, windows=sc.scalar(2.0, unit='angstrom'),
+                       background=[['linear'], ['quadratic', 'linear'], 'linear'][k], peak=['gaussian', ['lorentzian', 'gaussian'], 'pseudo_voigt'][k])
+        plain = sc.DataArray(sc.values(da.data), coords={'x': da.coords['x']})
+        return [(r.assessment.name, r.popt, r.red_chisq, r.aic, r.window) for r in rs], remove_peaks(plain, rs)
+    out.append(('fit_peaks+remove_peaks', [lambda k=k: fit(k) for k in range(3)]))
+
+    def model_call(k):
+        dt = ['float64', 'float32', 'float64'][k]
+        x = sc.array(dims=['x'], values=np.linspace(1, 5, 9), unit=['angstrom', 'angstrom', 'nm'][k], dtype=dt)
+        u = x.unit
+        pp = {'amplitude': sc.scalar(3.0 + k, unit=u, dtype=dt), 'loc': sc.scalar(3.0, unit=u, dtype=dt), 'scale': sc.scalar(0.3 + 0.1 * k, unit=u, dtype=dt)}
+        comp = M.PolynomialModel(degree=1, prefix='b_') + M.GaussianModel(prefix='p_')
+        cp = {'b_a0': sc.scalar(1.0, dtype=dt), 'b_a1': sc.scalar(0.5, unit=sc.units.one / u, dtype=dt), **{'p_' + n: v for n, v in pp.items()}}
+        return (M.GaussianModel()(x, **pp), M.LorentzianModel()(x, **pp), M.PseudoVoigtModel()(x, fraction=sc.scalar(0.3, dtype=dt), **pp), comp(x, **cp),
+                comp.with_prefix('z_').param_names)
+    out.append(('Model.__call__', [lambda k=k: model_call(k) for k in range(3)]))
+
+    # --- io
+    from scippneutron.io import cif, load_xye, save_xye
+
+    def xye(k):
+        dt = ['float64', 'float32', 'float64'][k]
+        da = sc.DataArray(sc.array(dims=['x'], values=np.arange(9.0) + k, variances=np.arange(9.0) + 1, unit='counts', dtype=dt),
+                          coords={'x': sc.array(dims=['x'], values=np.linspace(1, 5 + k, 9), unit=['angstrom', 'angstrom', 'us'][k], dtype=dt)})
+        b = io.StringIO()
+        save_xye(b, da, header=['', 'my header\nline two', 'h'][k]) if k else save_xye(b, da)
+        text = b.getvalue()
+        b.seek(0)
+        return text, load_xye(b, dim='x', unit='counts', coord_unit=str(da.coords['x'].unit))
+    out.append(('save_xye/load_xye', [lambda k=k: xye(k) for k in range(3)]))
+
+    def strip(text):
+        return '\n'.join(line for line in text.split('\n') if 'creation_date' not in line)
+
+    def cif_save(k):
+        base = cif.CIF(['one', 'two', 'three'][k], comment=['c1', '', 'c3'][k]).with_reducers(*['ra', 'rb', 'rc'][:k + 1])
+        texts = []
+        b = io.StringIO()
+        cif.save_cif(b, base, comment=['per-call', 'other', 'third'][k])
+        texts.append(strip(b.getvalue()))
+        for c in (base, base.copy(), base.with_reducers('later')):      # the same builder again, and builders derived from it
+            b = io.StringIO()
+            c.save(b)
+            texts.append(strip(b.getvalue()))
+        blk = cif.Block('blk' + str(k), [cif.Chunk({'_a': k, '_b': 'text'}), cif.Loop({'_x': sc.arange('r', 3.0 + k)})])
+        b = io.StringIO()
+        cif.save_cif(b, [blk], comment='c' * k)
+        texts.append(strip(b.getvalue()))
+        return texts
+    out.append(('save_cif/CIF.save', [lambda k=k: cif_save(k) for k in range(3)]))
+    return out
+
+
+COMPUTE_PRISTINE_SCRIPT = r"""
+import sys, json
+sys.path.insert(0, sys.argv[1]); sys.path.insert(0, sys.argv[2])
+import warnings; warnings.simplefilter('ignore')
+from harness.props import c09
+k = int(sys.argv[3])
+out = {}
+for label, thunks in c09.compute_entries():
+    try:
+        out[label] = c09._digest(thunks[k]())
+    except Exception as e:
+        out[label] = 'raised:' + type(e).__name__
+json.dump(out, sys.stdout)
+"""
+
+
+def compute_pristine(ctx, k):
+    verif = os.path.dirname(os.path.dirname(os.path.dirname(os.path.abspath(__file__))))
+    p = subprocess.run([sys.executable, '-c', COMPUTE_PRISTINE_SCRIPT, os.path.join(ctx.repo, 'src'), verif, str(k)],
+                       capture_output=True, text=True, timeout=900, env=dict(os.environ, PYTHONDONTWRITEBYTECODE='1'))
+    if p.returncode != 0:
+        raise RuntimeError('pristine subprocess failed: ' + p.stderr[-600:])
+    return json.loads(p.stdout[p.stdout.index('{'):])
+
+
+def run_compute_histories(ctx, deep, only=None):
+    """for every entry point: argument sets in the orders 1,0,2,1,0 (float32 before float64, one object after another, one
+    unit after another); every result is compared with the result of the same argument set in a process that computed
+    nothing else with that entry point"""
+    import warnings
+
+    warnings.simplefilter('ignore')
+    ref = [compute_pristine(ctx, k) for k in range(3)]
+    for label, thunks in compute_entries():
+        if only is not None and label != only:
+            continue
+        seq = [1, 0, 2, 1, 0] if (deep or not ctx.quick or label.startswith(('Cylinder', 'compute', 'save_cif'))) else [1, 0, 2]
+        if label.startswith('fit_peaks') and ctx.quick and not deep:
+            seq = [1, 0]
+        prev = []
+        for k in seq:
+            try:
+                got = _digest(thunks[k]())
+            except Exception as e:  # noqa: BLE001
+                got = 'raised:' + type(e).__name__
+            ctx.case(('compute-history', label, tuple(prev), k), True,
+                     sample={'op': 'compute-history', 'function': label, 'after': list(prev), 'argument_set': k} if not prev else None)
+            ctx.count('compute-history:' + label.split('[')[0].split('.')[0])
+            if got != ref[k][label]:
+                report(ctx, f'C09:history-dependent:{label.split("[")[0]}',
+                       f'{label}: result for argument set {k} after calls with argument sets {prev} differs from the result in a pristine process',
+                       {'kind': 'compute-history', 'function': label, 'after': list(prev), 'argument_set': k})
+            prev.append(k)
+
 # =================================================================================================
 # translated IR: Lean analysis vs Python mirror; concrete runs vs analysis
 # =================================================================================================
@@ -912,7 +1138,16 @@ def correspond_ir(ctx):
              f'{sum(1 for fi in done if not fi.public)} helpers; {sum(len(p) for fi in done for p in fi.paths)} IR instructions; '
              f'{sum(1 for fi in done if fi.bits)} with aliasing conversions, {sum(2 ** fi.bits for fi in done)} configurations in total): '
              + ', '.join(f'{fi.file}:{fi.qual}' for fi in done))
-    ctx.note('helpers writing a parameter by design: ' + ', '.join(f'{fi.qual}{fi.allowed}' for fi in done if fi.allowed))
+    gs = [fi for fi in done if fi.globals or fi.cached]
+    ctx.note(f'global-state, {len(gs)} functions touch module-level mutable objects or an lru_cache: ' + '; '.join(
+        f'{fi.file}:{fi.qual} reads {[g[1] for g in fi.globals]} writes {[g[1] for g in sorted(fi.global_writes)]}'
+        + (' [lru_cache]' if fi.cached else '') for fi in gs))
+    ctx.count('ir:global-state-functions', len(gs))
+    ctx.count('ir:global-state-writers', sum(1 for fi in gs if fi.global_writes))
+    for fi in gs:
+        if fi.global_writes:
+            ctx.disagree({'op': 'ir', 'function': f'{fi.file}:{fi.qual}'}, sorted(fi.global_writes), [], 'translated function writes module-level mutable state')
+    ctx.note('helpers writing a parameter by design: ' + ', '.join(f'{fi.qual}{[j for j in fi.allowed if j < fi.nreal]}' for fi in done if fi.allowed))
     ctx.count('ir:translated-functions', len(done))
     ctx.count('ir:untranslated-functions', len(failed))
     head = ctx.driver(['c09.kernels'])[0].split()
@@ -964,6 +1199,7 @@ def correspond(ctx):
 def oracle(ctx, deep):
     run_calls(ctx, deep)
     run_histories(ctx, deep)
+    run_compute_histories(ctx, deep)
 
 
 def replay(ctx, payload):
@@ -980,6 +1216,8 @@ def replay(ctx, payload):
                 break
         else:
             print('configuration not found in the call table')
+    elif w.get('kind') == 'compute-history':
+        run_compute_histories(ctx, True, only=w['function'])
     elif w.get('kind') == 'hist':
         ref = pristine_reference(ctx)
         for fam in families():
